@@ -136,6 +136,20 @@ func (c *SpecCtx) lookupIdent(name string) *Val {
 			return c.constVal(k)
 		}
 	}
+	// dot-imported names (e.g. the storage package dot-imports storage/types)
+	if c.pkg != nil && ast.IsExported(name) {
+		for _, imp := range c.pkg.Imports() {
+			if !strings.HasPrefix(imp.Path(), strings.TrimSuffix(modPath, "/")) {
+				continue
+			}
+			if obj := imp.Scope().Lookup(name); obj != nil {
+				switch obj.(type) {
+				case *types.Const, *types.Var:
+					return c.objVal(obj)
+				}
+			}
+		}
+	}
 	c.fail("unknown identifier %q", name)
 	return nil
 }
@@ -646,6 +660,9 @@ func (c *SpecCtx) call(e *ast.CallExpr) *Val {
 		case "lastarg":
 			name := c.strArg(e.Args[0])
 			i := c.eval(e.Args[1]).T.lit.Int64()
+			if t, ok := c.st.ghost[fmt.Sprintf("lastarg:%s:%d", name, i)]; ok {
+				return scalar(t, nil) // per-path record (scalar arguments)
+			}
 			if v, ok := x.lastArgs[fmt.Sprintf("%s:%d", name, i)]; ok {
 				return v
 			}
@@ -818,7 +835,7 @@ func (c *SpecCtx) call(e *ast.CallExpr) *Val {
 			} else if uf.Res == SStr {
 				typ = types.Typ[types.String]
 			}
-			return scalar(app(uf.Res, uf.Name, ts...), typ)
+			return scalar(App(uf.Res, uf.Name, ts...), typ)
 		}
 		// named type conversion (e.g. Size(x), Cookie(x))
 		if c.pkg != nil {
